@@ -29,7 +29,7 @@ func scenarios(tier string) []engine.Scenario {
 	for _, ch := range chains(tier) {
 		for _, rt := range []ring.Type{ring.Standard, ring.ConjugateInvariant} {
 			ks = append(ks, ksScenario(rt, 4, ch, bound))
-			auto = append(auto, autoScenario(rt, 4, ch, boundAuto))
+			auto = append(auto, autoScenario(rt, 4, ch, 2))
 			rd = append(rd, ringDegScenario(rt, 5, ch, bound))
 			cp = append(cp, compressScenario(rt, 4, ch, bound))
 			es = append(es, evalSeqScenario(rt, 4, ch, boundAuto))
@@ -37,11 +37,16 @@ func scenarios(tier string) []engine.Scenario {
 				es = append(es, evalSeqScenario(rt, 5, ch, boundAuto))
 			}
 		}
+		if tier != "thorough" && (ch.Name == "q30x3-p30x2" || ch.Name == "q60-45-p61x2") {
+			// the conjugate-invariant ring with odd log N (lazy NTT range differs there) in the quick tier
+			ks = append(ks, ksScenario(ring.ConjugateInvariant, 5, ch, 1))
+		}
 		br = append(br, bridgeScenario(ch, bound))
 		pk = append(pk, packScenario(5, 4, ch, boundAuto))
 		if tier == "thorough" {
 			pk = append(pk, packScenario(6, 4, ch, boundAuto))
-			ks = append(ks, ksScenario(ring.Standard, 5, ch, 2))
+			ks = append(ks, ksScenario(ring.Standard, 5, ch, 2), ksScenario(ring.ConjugateInvariant, 5, ch, 2), ksScenario(ring.Standard, 6, ch, 1))
+			auto = append(auto, autoScenario(ring.Standard, 5, ch, 1), autoScenario(ring.ConjugateInvariant, 5, ch, 1))
 		}
 	}
 	for _, ch := range chains(tier) {
@@ -65,7 +70,9 @@ func scenarios(tier string) []engine.Scenario {
 
 func expect(tier string) []string {
 	e := []string{"ring=Std", "ring=CI", "IsNTT=true", "IsNTT=false", "inPlace=true", "inPlace=false",
-		"operand=uniform", "operand=top-of-range", "ctLevel=below-key-level", "ctLevel=key-level",
+		"operand=uniform", "operand=top-of-range", "out=fresh-same-level", "out=in-place", "out=fresh-below-input", "out=stale-above-input",
+		"out=ringdeg-below-input", "out=ringdeg-above-input", "transport=none", "transport=MarshalBinary", "transport=WriteTo/ReadFrom",
+		"pack-keys=plain", "pack-keys=compressed-then-expanded", "pack-IsNTT=true", "pack-IsNTT=false", "ctLevel=below-key-level", "ctLevel=key-level",
 		"compressed=true", "compressed=false", "LevelP=-1", "LevelP=0", "LevelP=1", "LevelP=2", "LevelP=below-max",
 		"LevelQ=max", "LevelQ=below-max", "tail=#P-does-not-divide-#Q",
 		"op=ApplyEvaluationKey/small->large", "op=ApplyEvaluationKey/large->small",
